@@ -4,7 +4,7 @@ import hashlib
 from hypothesis import strategies as st
 
 from .. import gen, gen_prog
-from ..machine import P_ABCOLOR, P_ABDESC, P_CALCOLOR, P_CALDESC, P_CALORDER, P_COMMENT, P_DISPLAYNAME, P_REFRESH, enc_body
+from ..machine import P_RT, P_ABCOLOR, P_ABDESC, P_CALCOLOR, P_CALDESC, P_CALORDER, P_COMMENT, P_DISPLAYNAME, P_REFRESH, enc_body
 from ._machine import MachineCheck
 
 ID = "C15"
@@ -65,7 +65,7 @@ def props_program(draw):
     ]
     colls = ["c1", "c1", "a1", "a1", "x1"] + (["b1", "b1"] if bmeta else [])
     for _ in range(draw(st.integers(8, 22))):
-        op = draw(st.sampled_from(["SET"] * 8 + ["REMOVE", "REMOVE", "PUT", "DELETE", "RESTART", "RESTART", "MKCOL", "PROPFIND"]))
+        op = draw(st.sampled_from(["SET"] * 8 + ["REMOVE", "REMOVE", "PUT", "DELETE", "RESTART", "RESTART", "MKCOL", "MKCOL", "PROPFIND", "RETYPE"]))
         fe = draw(gen_prog.FE)
         afe = draw(st.sampled_from(["wsgi", "aio"]))
         coll = draw(st.sampled_from(colls))
@@ -91,8 +91,15 @@ def props_program(draw):
             steps.append({"op": "DELETE", "fe": fe, "afe": afe, "coll": "c1", "name": draw(st.sampled_from(ics)), "cond": []})
         elif op == "MKCOL":
             kind = draw(st.sampled_from(["ext-calendar", "mkcalendar", "ext-addressbook"]))
-            steps.append({"op": "MKCOL", "fe": fe, "afe": afe, "coll": "c2", "kind": kind, "props": [draw(one_set()) for _ in range(draw(st.integers(1, 2)))]})
-            colls.append("c2")
+            slot = draw(st.sampled_from(["c2", "n1"]))
+            # resourcetype anywhere among the properties, each in its own DAV:set or all in one DAV:prop
+            steps.append({"op": "MKCOL", "fe": fe, "afe": afe, "coll": slot, "kind": kind, "props": [draw(one_set()) for _ in range(draw(st.integers(1, 3)))], "rt_pos": draw(st.integers(0, 3)), "one_prop": draw(st.booleans())})
+            colls.append(slot)
+        elif op == "RETYPE":
+            # resourcetype set again to the type the collection has, alone or among other instructions
+            k, v = draw(one_set(semi))
+            instr = draw(st.sampled_from([[["set", P_RT, "@same"]], [["set", k, v], ["set", P_RT, "@same"]], [["set", P_RT, "@same"], ["set", k, v]]]))
+            steps.append({"op": "PROPPATCH", "fe": fe, "afe": afe, "coll": coll, "instr": instr})
         elif op == "PROPFIND":
             steps.append({"op": "PROPFIND", "fe": fe, "afe": afe, "coll": coll, "depth": draw(st.sampled_from([0, 1])), "allprop": draw(st.booleans())})
         else:
